@@ -698,6 +698,55 @@ def lift(model, real_inputs, values, how):
             for n, a in zip(names, values):
                 m.graph.initializer.append(_tensor_like(typed[n], a, n))
         return m, {}
+    if how in ("if_then", "if_else"):
+        # the whole model (inputs turned into initializers) becomes the TAKEN branch of an If whose condition is a
+        # constant; the other branch computes outputs of the same types from a renamed copy. Exercises the branch
+        # inlining of the folder (moving subgraph initializers, renaming, output rewiring) on every corpus model.
+        m, _ = lift(model, real_inputs, values, "init")
+        g = m.graph
+        if any(a.type in (onnx.AttributeProto.GRAPH, onnx.AttributeProto.GRAPHS) for n in g.node for a in n.attribute):
+            raise ValueError("has-subgraph")
+        if any(o.type.WhichOneof("value") != "tensor_type" for o in g.output) or g.sparse_initializer:
+            raise ValueError("non-tensor-output")
+
+        def branch(suffix, name):
+            defined = {t.name for t in g.initializer} | {o for n in g.node for o in n.output if o}
+            ren = lambda x: (x + suffix) if x in defined else x   # noqa: E731
+            nodes = []
+            for n in g.node:
+                n2 = onnx.NodeProto()
+                n2.CopyFrom(n)
+                del n2.input[:]
+                del n2.output[:]
+                n2.input.extend(ren(x) for x in n.input)
+                n2.output.extend(ren(x) for x in n.output)
+                if n2.name:
+                    n2.name = n2.name + suffix
+                nodes.append(n2)
+            inits = []
+            for t in g.initializer:
+                t2 = onnx.TensorProto()
+                t2.CopyFrom(t)
+                t2.name = ren(t.name)
+                inits.append(t2)
+            outs = []
+            for o in g.output:
+                o2 = onnx.ValueInfoProto()
+                o2.CopyFrom(o)
+                o2.name = ren(o.name)
+                outs.append(o2)
+            if any(o.name in {i.name for i in g.input} for o in g.output) or any(o.name not in defined for o in g.output):
+                raise ValueError("output-not-produced")
+            return onnx.helper.make_graph(nodes, name, [], outs, initializer=inits)
+
+        cond = nh.from_array(np.array(how == "if_then"), "vf_if_cond")
+        ifn = onnx.helper.make_node("If", ["vf_if_cond"], [o.name for o in g.output], name="vf_if",
+                                    then_branch=branch("__t", "vf_then"), else_branch=branch("__e", "vf_else"))
+        g2 = onnx.helper.make_graph([ifn], g.name or "g", [], list(g.output), initializer=[cond])
+        m2 = onnx.ModelProto()
+        m2.CopyFrom(m)
+        m2.graph.CopyFrom(g2)
+        return m2, {}
     raise ValueError("unknown lift " + how)
 
 
@@ -746,7 +795,7 @@ def plan_c03(tier, with_corpus=True):
         items += _run(make_drv_wrapped_folded(True), 0, fam, "wrapped_folded")
         items += _run(drv_single_cform, 0, fam, "single_cform")
         items += _run(drv_regpair_old, 0, fam, "regpair_old")
-        lifts = ["init"]
+        lifts = ["init", "if_then"]
     else:
         items += _run(drv_single, 1, fam, "single")
         items += _run(drv_single_folded, 0, fam, "single_folded")
@@ -759,7 +808,7 @@ def plan_c03(tier, with_corpus=True):
         items += _run(make_drv_wrapped_folded(False), 0, fam, "wrapped_folded")
         items += _run(drv_single_cform, 0, fam, "single_cform")
         items += _run(drv_regpair_old, 1, fam, "regpair_old")
-        lifts = ["init", "asis", "const", "init_in"]
+        lifts = ["init", "asis", "const", "init_in", "if_then", "if_else"]
     if with_corpus:
         names = corpus_names("node")
         cit = [dict(fam="corpus", sub="node", name=n, lift=l, api="optimize", opts={}, entry="proto")
